@@ -10,7 +10,7 @@ git apply "$D/patch.diff" || { echo "APPLY-FAILED"; git -C /repo worktree remove
 PYTHONPATH="$WT" /venv/bin/python "$D/demo.py" >/dev/null 2>&1; B=$?
 PYTHONPATH="$WT" /venv/bin/python -c "import kappadata,sys; sys.exit(0 if kappadata.__file__.startswith('$WT') else 1)" || echo "WARNING: not importing worktree"
 OUT=$(mktemp -d)
-PYTHONPATH="$WT" /venv/bin/python -m pytest -ra -q -p no:cacheprovider --timeout=900 --continue-on-collection-errors --junitxml=$OUT/junit.xml >$OUT/log.txt 2>&1
+OMP_NUM_THREADS=2 MKL_NUM_THREADS=2 PYTHONPATH="$WT" /venv/bin/python -m pytest -ra -q -p no:cacheprovider --timeout=900 --continue-on-collection-errors --junitxml=$OUT/junit.xml >$OUT/log.txt 2>&1
 C=$(/venv/bin/python - "$OUT/junit.xml" <<'PY'
 import json, sys, xml.etree.ElementTree as ET
 want = set(json.load(open("/root/.vp/BASELINE.json"))["stable_pass"])
